@@ -14,12 +14,13 @@ def _c11_oid(tier, seed):
 
 PROPS["C11"] = dict(
     level="other",
-    functions=_DER_TLV + ["ecdsa.der.read_number"],
+    functions=_DER_TLV + ["ecdsa.der.read_number", "ecdsa.der.encode_number", "ecdsa.der.remove_object"],
     lemmas=["der.roundtrip_length", "der.roundtrip_integer", "der.roundtrip_octet_string", "der.roundtrip_sequence",
             "der.roundtrip_constructed", "der.roundtrip_bitstring"],
     bounded=[dict(function=q, role="CPython cross-check of a proved contract", bound="structured DER corpus (spec.domains.der_strings)")
              for q in _DER_TLV] +
-            [dict(function="ecdsa.der.remove_object", label="OBJECT IDENTIFIER codec against the X.690 spec encoders", role="bounded stand-in (encode_number, encode_oid, remove_object are not under a deductive contract; read_number is: canonical structure, value, UnexpectedDER exactly when no canonical sub-identifier starts the string)",
+            [dict(function="ecdsa.der.encode_number", role="CPython cross-check of a proved contract", bound="n in 0..3000 (quick) / 20000 (thorough) + 2^(7k)+-1, 2^64, 2^70, 10^30")] +
+            [dict(function="ecdsa.der.remove_object", label="OBJECT IDENTIFIER codec against the X.690 spec encoders", role="bounded stand-in for the parts of the OID codec that are not discharged: encode_oid (not under contract), the round trips, and remove_object's clause `consumed bytes == canonical encoding of the returned arcs` (needs uniqueness of base-128 numerals, an induction). Discharged deductively: encode_number == the X.690 sub-identifier in closed form (digits of n // 128^k, minimal, continuation bits) for every n >= 0; read_number (canonical structure, value, UnexpectedDER exactly when no canonical sub-identifier starts the string); remove_object (UnexpectedDER is the only exception, the remainder is the suffix after a 0x06 TLV with a non-empty body, arcs in the X.690 ranges)",
                   bound="sub-identifiers 0..20000 (quick) / 300000 (thorough) + 2^(7k)+-1, 2^64, 2^70, 10^30, 300 random up to 90 bits; 180 structured OIDs (first arcs at the 39/40/47/48 boundaries, arcs up to 2^70) (+3000 random, thorough) x remainders; every single-byte substitution / insertion / truncation, non-minimal length, padded sub-identifier and length overrun of each canonical encoding must be rejected with UnexpectedDER or be canonical itself",
                   run=_c11_oid)],
     min_obligations=30,
@@ -280,14 +281,14 @@ PROPS["C10"] = dict(
     level="other",
     functions=_LOADERS + ["ecdsa.util.sigdecode_string", "ecdsa.util.sigdecode_strings", "ecdsa.util.sigdecode_der", _K + "VerifyingKey.verify_digest",
                           "ecdsa.der.read_length", "ecdsa.der.remove_integer", "ecdsa.der.remove_sequence", "ecdsa.der.remove_octet_string", "ecdsa.der.remove_constructed",
-                          "ecdsa.der.remove_bitstring", "ecdsa.der.read_number", "ecdsa.ecdsa.Public_key.__init__",
+                          "ecdsa.der.remove_bitstring", "ecdsa.der.read_number", "ecdsa.der.remove_object", "ecdsa.ecdsa.Public_key.__init__",
                           "ecdsa.ecdh.ECDH.load_private_key_bytes", "ecdsa.ecdh.ECDH.load_private_key_der", "ecdsa.ecdh.ECDH.load_private_key_pem",
                           "ecdsa.ecdh.ECDH.load_received_public_key_bytes", "ecdsa.ecdh.ECDH.load_received_public_key_der", "ecdsa.ecdh.ECDH.load_received_public_key_pem"],
     lemmas=[],
     bounded=[dict(function=_K + "VerifyingKey.from_der", label="key loaders over mutated encodings", role="concretiser / CPython cross-check of the exception sets",
                   bound="3 curves (quick) / 17 (thorough) x 6 loader entry points x valid encodings x truncations, byte substitutions, insertions, deletions (sampled in quick); PEM text mutations", run=_c10_b, budget_s={"quick": 30, "thorough": 600})],
     min_obligations=30,
-    trusted_base=["remove_object (OID reader) is applied by an ASSUMED contract (loops over lists; bounded stand-in in C11)", "find_curve: the curve of the table with that OID or UnknownCurveError (finite table)",
+    trusted_base=["remove_object (OID reader): its exception set (UnexpectedDER only), the suffix property of the remainder and the arc ranges are discharged from the real AST; only the clause `consumed bytes == canonical encoding of the arcs` is ASSUMED (bounded stand-in in C11) - C10's exception sets do not depend on it", "find_curve: the curve of the table with that OID or UnknownCurveError (finite table)",
                   "der.unpem is executed from source with exception-level models of split/strip/startswith/join/base64 (only b64decode can raise)",
                   "RuntimeError('No b found') in the p = 1 (mod 8) square-root branch needs a quadratic non-residue below p: assumed"],
     explanation="exceptional postconditions collected per decoder entry point: every path of every loader / signature decoder / verification entry point raises only the documented classes; every while loop on these call graphs has a decreases clause or is bounded by the input length",
